@@ -59,7 +59,7 @@ theorem all_drop {p : Char → Bool} (xs : Str) (n : Nat) (h : xs.all p = true) 
   rw [List.all_eq_true] at *
   exact fun c hc => h c (List.mem_of_mem_drop hc)
 
-/-- `str(d)` of a plain decimal is an OFX decimal literal -/
+/-- `str(d)` of a plain decimal is an OFX decimal literal (kept: `str` is still what `repr`-like paths use) -/
 theorem lexDecimal_plain (d : Dec) (h : plainDec d = true) : lexDecimal (decToStr d) = true := by
   cases d with
   | inf n => simp [plainDec] at h
@@ -99,6 +99,45 @@ theorem lexDecimal_plain (d : Dec) (h : plainDec d = true) : lexDecimal (decToSt
         rw [List.append_assoc, htk, List.cons_append, dropSign_signStr neg x _ hx1 hx2,
           ← List.cons_append, ← htk]
         exact lexDecimalBody_point _ _ (all_take _ _ hall) (all_drop _ _ hall) (by rw [htk]; simp)
+
+/-- **`format(d, "f")` of every finite decimal is an OFX decimal literal**: optional sign, digits, at most one
+    point — no exponent, whatever the exponent of `d` -/
+theorem lexDecimal_formatF (neg : Bool) (c : Nat) (e : Int) : lexDecimal (decFormatF (.fin neg c e)) = true := by
+  rw [decFormatF_fin]
+  have hall := pyStrNat_all_digits c
+  have hne := pyStrNat_ne_nil c
+  obtain ⟨x, xs, hx⟩ := List.exists_cons_of_ne_nil hne
+  have hxd : isDigitC x = true := by
+    rw [hx] at hall; simp only [List.all_cons, Bool.and_eq_true] at hall; exact hall.1
+  have hx1 : x ≠ '-' := by intro e; subst e; exact absurd hxd (by decide)
+  have hx2 : x ≠ '+' := by intro e; subst e; exact absurd hxd (by decide)
+  unfold lexDecimal
+  split
+  · split
+    · rw [dropSign_signStr neg '0' [] (by decide) (by decide)]
+      exact lexDecimalBody_int _ (by decide) (by simp)
+    · rw [hx, List.cons_append, dropSign_signStr neg x _ hx1 hx2, ← List.cons_append, ← hx]
+      apply lexDecimalBody_int
+      · simp only [List.all_append, Bool.and_eq_true, hall, true_and]
+        simp [List.all_replicate]; right; decide
+      · simp [hne]
+  · split
+    · rw [dropSign_signStr neg '0' _ (by decide) (by decide)]
+      have : ('0' :: '.' :: (List.replicate (-(e + ((pyStrNat c).length : Int))).toNat '0' ++ pyStrNat c) : Str)
+          = ['0'] ++ '.' :: (List.replicate (-(e + ((pyStrNat c).length : Int))).toNat '0' ++ pyStrNat c) := rfl
+      rw [this]
+      apply lexDecimalBody_point _ _ (by decide) _ (by simp)
+      simp only [List.all_append, Bool.and_eq_true, hall, and_true]
+      simp [List.all_replicate]; right; decide
+    · rename_i h1 h2
+      have hk : 1 ≤ (e + ((pyStrNat c).length : Int)).toNat := by omega
+      generalize (e + ((pyStrNat c).length : Int)).toNat = k at *
+      have htk : (pyStrNat c).take k = x :: xs.take (k - 1) := by
+        rw [hx]; cases k with
+        | zero => omega
+        | succ k => simp
+      rw [htk, List.cons_append, dropSign_signStr neg x _ hx1 hx2, ← List.cons_append, ← htk]
+      exact lexDecimalBody_point _ _ (all_take _ _ hall) (all_drop _ _ hall) (by rw [htk]; simp)
 
 /-- `String.enforce_length` as a decision -/
 def fitsLen (l : Option Nat) (strict : Bool) (s : Str) : Bool :=
